@@ -147,14 +147,15 @@ pub fn num(ty: &str, b: &[u8]) -> String {
         "u64" => vis!(U64),
         _ => true,
     };
-    let ok = tolen_ok && vis_ok && match ty {
+    let ok = pc(|| tolen_ok && vis_ok && match ty {
         "u8" => chk!(U8, u8, read_u8),
         "u16" => chk!(U16, u16, read_u16),
         "u32" => chk!(U32, u32, read_u32),
         "i32" => chk!(I32, i32, read_i32),
         "u64" => chk!(U64, u64, read_u64),
         _ => true,
-    };
+    })
+    .unwrap_or(false);
     format!(" #ref={}", if ok { "ok" } else { "FAIL" })
 }
 
@@ -754,10 +755,16 @@ pub fn rb(name: &str, b: &[u8], n: usize, ours: &Result<usize, Error>, line: &st
                     if p.txid() != &o.txid.to_byte_array()[..] || p.vout() != o.vout {
                         bad.push("outpoint-fields");
                     }
+                    let a0 = crate::allocs();
                     let conv: bitcoin::OutPoint = (&p).into();
+                    let conv_allocs = crate::allocs() - a0;
                     let conv2: bitcoin::OutPoint = p.clone().into();
                     if conv != o || conv2 != o || serialize(&conv) != p.as_ref() {
                         bad.push("outpoint-conversion");
+                    }
+                    // 36 bytes copied into a value without heap parts: nothing to allocate (C05)
+                    if conv_allocs != 0 {
+                        bad.push("outpoint-conversion-allocates");
                     }
                     if !bad.is_empty() {
                         return Err(format!("FAIL:{}", bad.join("+")));
@@ -1193,6 +1200,11 @@ pub fn find_line(ctx: &Ctx, id: &[u8], b: &[u8]) -> String {
                 let mut v2 = bsl::FindTransaction::new(txid);
                 let r1 = bsl::Block::visit(b, &mut v2).map(|_| ());
                 let r2 = bsl::Block::visit(b, &mut v2).map(|_| ());
+                // ... and a block without transactions visited afterwards takes nothing away from what was found
+                let mut empty = b[..80.min(b.len())].to_vec();
+                empty.resize(80, 0);
+                empty.push(0);
+                let _ = bsl::Block::visit(&empty, &mut v2);
                 (r1, r2, v2.tx_found())
             });
             match again {
@@ -1690,6 +1702,23 @@ pub fn big(args: &[String]) {
                 }
                 Ok(Err(e)) => fails.push(format!("tx-rejected:{}", err_name(&e))),
                 Err(_) => fails.push("tx-panic".into()),
+            }
+            // the database value round trip of the same objects (C20: no size is special there either)
+            {
+                use bitcoin_slices::redb::RedbValue;
+                match pc(|| {
+                    let p = bsl::Transaction::parse(&tx).ok()?;
+                    let t = p.parsed();
+                    let bytes = <bsl::Transaction as RedbValue>::as_bytes(t);
+                    let back = <bsl::Transaction as RedbValue>::from_bytes(bytes);
+                    let o = bsl::TxOut::parse(&txout).ok()?;
+                    let ob = <bsl::TxOut as RedbValue>::from_bytes(<bsl::TxOut as RedbValue>::as_bytes(o.parsed()));
+                    Some(back == *t && bytes == &tx[..] && ob == *o.parsed())
+                }) {
+                    Ok(Some(true)) => {}
+                    Ok(_) => fails.push("redb-roundtrip-differs".into()),
+                    Err(_) => fails.push("redb-roundtrip-panic".into()),
+                }
             }
             if fails.is_empty() {
                 println!("big obj4m ok");
